@@ -19,7 +19,7 @@ import re
 
 from facts import Body
 
-MAX_BLOCKS = 60
+MAX_BLOCKS = 400
 MAX_ASYNC_BLOCKS = 800
 MAX_DEPTH = 3
 _HERE = os.path.dirname(os.path.abspath(__file__))
@@ -528,6 +528,8 @@ def inline_all(facts):
         if j is not None:
             new.bodies[path] = Body(j)
     # a helper all of whose call sites were inlined is dead code for the who-may-call rules
+    detached = dict(getattr(facts, "detached", {}) or {})
+    new.detached = detached
     still_called = set()
     for path, b in new.bodies.items():
         for blk in b.j["blocks"]:
@@ -541,7 +543,9 @@ def inline_all(facts):
             vis = new.bodies[h].j.get("vis")
             if vis != "Public":
                 del new.bodies[h]
-                # closures of the helper go with it
+                # closures of the helper go with it (the spliced code in the callers still builds them: they stay reachable through
+                # `detached`, which analysis.closures_of / closure_return_in_caller_terms consult)
                 for p in [p for p in new.bodies if p.startswith(h + "::{closure")]:
+                    detached[p] = new.bodies[p]
                     del new.bodies[p]
     return new, counts
